@@ -143,10 +143,13 @@ def simulate(ops):
 
 def replay(ops, call):
     """build the cnfgen object through its public API; call(G, overrides) at every 'gen'; the value of the
-    last call is returned (the last op is a 'gen')."""
+    last call is returned (the last op is a 'gen').  An earlier call may raise (the generator refuses the graph
+    as it was then, e.g. odd degrees for the even colouring formula): that outcome was compared when that prefix
+    was the parameter, here it is dropped like any earlier result."""
     from cnfgen.graphs import Graph, BipartiteGraph, DirectedGraph
     G, res = None, None
-    for op in ops:
+    last = max(i for i, op in enumerate(ops) if op[0] == 'gen')
+    for i, op in enumerate(ops):
         k = op[0]
         if k == 'new':
             G = Graph(op[1])
@@ -163,7 +166,13 @@ def replay(ops, call):
         elif k == 'grow':
             G.update_vertex_number(op[1])
         elif k == 'gen':
-            res = call(G, op[1] if len(op) > 1 else {})
+            if i == last:
+                res = call(G, op[1] if len(op) > 1 else {})
+            else:
+                try:
+                    call(G, op[1] if len(op) > 1 else {})
+                except Exception:
+                    pass
         else:
             raise ValueError('unknown op %r' % (op,))
     return res
